@@ -56,8 +56,11 @@ pub struct CtxP;
 thread_local! { static CTX_DROP_SITES: RefCell<Vec<i64>> = RefCell::new(Vec::new()); }
 impl Drop for CtxP {
     fn drop(&mut self) {
+        let d = crate::alloc::domain(0);   // the backtrace machinery caches symbol tables: not allocations of the code under test
         let bt = format!("{}", std::backtrace::Backtrace::force_capture());
         CTX_DROP_SITES.with(|v| v.borrow_mut().push(bt.contains("cglue_wrapped_") as i64));
+        drop(bt);
+        crate::alloc::domain(d);
     }
 }
 
